@@ -307,6 +307,17 @@ def coq_check_props(pid, scratch, extra_files=None, thorough=False):
     return res
 
 
+def source_tie(pid, ctx):
+    """second tie (harness/srctie.py): kernels of the current source translated to Gallina and proved equal to the model"""
+    try:
+        import srctie
+        if pid not in srctie.KERNELS:
+            return None
+        return srctie.check(REPO, pid, ctx.scratch, COQ, COQ_Q)
+    except Exception as e:                       # a translator crash is not a verdict about the code
+        return {"kernels": [], "proved": 0, "total": 0, "error": repr(e)[:300]}
+
+
 # --------------------------------------------------------------------------- context
 class Ctx:
     def __init__(self, pid, tier, seed, replay=None):
@@ -331,6 +342,7 @@ class Ctx:
         self.coq = None
         self.notes = []
         self.known = [k for k in load_known() if k.get("property") == pid]
+        self.tie = None
 
     # -- randomness
     def torch_seed(self):
@@ -454,6 +466,16 @@ def write_evidence(ctx, violations, rule, extra_assumptions=None):
         for k in ("coqc_s", "coqchk_s", "coqchk_ok"):
             if k in ctx.coq:
                 cov[k] = ctx.coq[k]
+    if getattr(ctx, "tie", None):
+        t = ctx.tie
+        cov["source_translation_tie"] = {
+            "what": "scalar / decision kernels translated from /repo's current source by harness/srctie.py and proved equal, for all inputs, to the model functions (Coq, this run)",
+            "kernels": [{k2: v for k2, v in k.items() if k2 != "detail" or k["status"] != "proved"} for k in t.get("kernels", [])],
+            "proved": t.get("proved", 0), "total": t.get("total", 0), "wall_s": t.get("wall_s"),
+            "policy": "unproved (translated, equality fails) = broken tie, reported; untranslatable = tie not available for that kernel, correspondence only",
+        }
+        if t.get("error"):
+            cov["source_translation_tie"]["error"] = t["error"]
     cov.update(ctx.extra)
     ev = {
         "property_id": ctx.pid, "tier": ctx.tier, "seed": ctx.seed, "level": "proof",
@@ -486,6 +508,7 @@ def run_property(pid, mod, tier, seed, replay=None):
             if pre is not None:
                 pre(ctx)            # e.g. C14 regenerates its model from the source
             ctx.coq = coq_check_props(pid, ctx.scratch, thorough=ctx.thorough)
+            ctx.tie = source_tie(pid, ctx)
         setup_repo_import()
         if replay:
             case = json.load(open(replay))
@@ -509,6 +532,12 @@ def run_property(pid, mod, tier, seed, replay=None):
                            "failed_theorem": ctx.coq.get("failed_theorem"), "log": ctx.coq["log"][-3000:]})
         if ctx.disagreements:
             broken.append({"kind": "correspondence", "count": len(ctx.disagreements), "first": ctx.disagreements[:5]})
+        tie_unproved = [k for k in (ctx.tie or {}).get("kernels", []) if k["status"] == "unproved"]
+        if tie_unproved:
+            # a kernel of the source translated into the supported fragment but is no longer provably equal to the model function
+            broken.append({"kind": "source-translation-tie",
+                           "theorems": ["tie_%s : %s = %s" % (k["kernel"], k["source"], k["model"]) for k in tie_unproved],
+                           "log": [k.get("detail", "")[-500:] for k in tie_unproved][:3]})
         if ctx.failures:
             violations = len(ctx.failures)
             shrink = getattr(mod, "shrink", None)
